@@ -108,22 +108,22 @@ HInstance(obs, sig) ==
        \/ sig[1].opt /\ HInstance(obs, Tail(sig))
 
 \* software string: the observed string contains the expected token
-RECURSIVE ContainsAt(_, _, _)
-ContainsAt(hay, needle, k) ==
+RECURSIVE StrContainsAt(_, _, _)
+StrContainsAt(hay, needle, k) ==
   IF k + Len(needle) - 1 > Len(hay) THEN FALSE
-  ELSE SubSeq(hay, k, k + Len(needle) - 1) = needle \/ ContainsAt(hay, needle, k + 1)
-Contains(hay, needle) == Len(needle) = 0 \/ ContainsAt(hay, needle, 1)
+  ELSE SubSeq(hay, k, k + Len(needle) - 1) = needle \/ StrContainsAt(hay, needle, k + 1)
+StrContains(hay, needle) == Len(needle) = 0 \/ StrContainsAt(hay, needle, 1)
 
 SwDist(o, s, D) ==
   IF "D12_sw_reversed" \in D
-  THEN (IF Contains(s, o) THEN 0 ELSE PenSw)        \* code: signature.contains(observed)
-  ELSE (IF Contains(o, s) THEN 0 ELSE PenSw)
+  THEN (IF StrContains(s, o) THEN 0 ELSE PenSw)        \* code: signature.contains(observed)
+  ELSE (IF StrContains(o, s) THEN 0 ELSE PenSw)
 
 HttpDist(o, s, D) ==
   Sum(<<VerDist(o.ver, s.ver), HeaderDist(o.horder, s.horder), HeaderDist(o.habsent, s.habsent), SwDist(o.sw, s.sw, D)>>)
 
 HttpInstance(o, s) ==
-  /\ (s.ver = "*" \/ o.ver = s.ver) /\ HInstance(o.horder, s.horder) /\ o.habsent = s.habsent /\ Contains(o.sw, s.sw)
+  /\ (s.ver = "*" \/ o.ver = s.ver) /\ HInstance(o.horder, s.horder) /\ o.habsent = s.habsent /\ StrContains(o.sw, s.sw)
 
 -----------------------------------------------------------------------------
 (* quality: laws only -- the statement fixes no table *)
